@@ -391,21 +391,51 @@ def gen_glob_case(rng, maxlen):
     return dict(ops=ops, via_base=rng.random() < 0.3)
 
 
+def gen_midpost_case(rng, maxlen):
+    """nothing is suspended when a post starts; the callback of one of its receivers suspends (holds or disables) a
+    scope that concerns a receiver whose turn has not come yet - the suspension must be seen for that receiver, in this
+    very post"""
+    FOCUS.clear()
+    n0, s0 = rng.choice(NAMES), rng.choice(SENDERS)
+    obs = rng.sample(OBSERVERS[:3], rng.randint(2, 3))
+    ops = []
+    for o in obs:
+        n, sd = rng.choice([(None, None), (None, s0), (n0, None), (n0, s0)])
+        ops.append(["add", o, rng.choice(METHS), n, sd, None])
+    actor = rng.choice([x for x in ops if x[0] == "add"])
+    victim = rng.choice(obs)
+    kind = rng.choice(["hold", "disable"])
+    sc = [rng.choice([None, n0]), rng.choice([None, s0]), rng.choice([victim, victim, None])]
+    body = [[kind] + sc + ([None] if kind == "hold" else [])]
+    if rng.random() < 0.3:
+        body.append(["post", n0, s0, 2])
+    ops.append(["script", actor[1], actor[2], body])
+    ops.append(["post", n0, s0, 1])
+    if rng.random() < 0.5:
+        ops.append(["post", n0, s0, rng.randrange(2)])
+    ops.append(["release" if kind == "hold" else "enable"] + sc)
+    ops.append(["post", n0, s0, 0])
+    return dict(ops=ops, via_base=rng.random() < 0.3)
+
+
 def generate(rng, tier):
-    n, maxlen = (1500, 25) if tier == "quick" else (20000, 60)
+    n, maxlen = (2400, 25) if tier == "quick" else (32000, 60)
     for i in range(n):
-        if i % 8 == 5:
+        k = i % 16
+        if k in (5, 13):
             yield gen_registry_case(rng, maxlen)
-        elif i % 8 == 3:
+        elif k in (3, 11):
             yield gen_nested_scope_case(rng, maxlen)
-        elif i % 16 == 7:
+        elif k == 7:
             yield gen_dead_case(rng, maxlen)
-        elif i % 16 == 15:
-            yield gen_glob_case(rng, maxlen)
-        elif i % 16 == 9:
-            yield gen_none_case(rng, maxlen)
+        elif k == 15:
+            yield gen_glob_case(rng, maxlen) if i % 32 == 15 else gen_none_case(rng, maxlen)
+        elif k in (1, 9, 14):
+            yield gen_bracket_case(rng, maxlen)
+        elif k == 6 and i % 32 == 6:
+            yield gen_midpost_case(rng, maxlen)
         else:
-            yield gen_bracket_case(rng, maxlen) if i % 2 else gen_case(rng, maxlen)
+            yield gen_case(rng, maxlen)
 
 
 def neighbourhood(case, step, rng):
